@@ -500,6 +500,10 @@ type ssaStyle struct {
 
 // newSSAStyleFromStyle returns an SSA style based on a Style
 func newSSAStyleFromStyle(i Style) *ssaStyle {
+	// No inline style
+	if i.InlineStyle == nil {
+		return &ssaStyle{name: i.ID}
+	}
 	return &ssaStyle{
 		alignment:       i.InlineStyle.SSAAlignment,
 		alphaLevel:      i.InlineStyle.SSAAlphaLevel,
@@ -1186,7 +1190,7 @@ func (s Subtitles) WriteToSSA(o io.Writer) (err error) {
 		return
 	}
 
-	var v4plus = s.Metadata.SSAScriptType == "v4.00+"
+	var v4plus = s.Metadata != nil && s.Metadata.SSAScriptType == "v4.00+"
 
 	// Write Styles block
 	if len(s.Styles) > 0 {
